@@ -8,6 +8,7 @@ import (
 	"io"
 	"os"
 	"os/exec"
+	"reflect"
 	"runtime/debug"
 	"strings"
 	"syscall"
@@ -24,7 +25,7 @@ func init() {
 // model parameters mirroring the limits of the code under test
 const (
 	c06StrLim = "1073741824" // string length limit of Reader.StrLen ("-" = none)
-	c06Mono   = "1" // Array/Map offsets checked to be non-decreasing
+	c06Mono   = "1"          // Array/Map offsets checked to be non-decreasing
 )
 
 type c06Req struct {
@@ -62,6 +63,9 @@ func accessAllRows(col proto.Column, rows int) string {
 			}
 		}
 		return ""
+	}
+	if m := rowLengthsAddUp(col, rows); m != "" {
+		return m
 	}
 	for _, name := range []string{"Row", "RowKV"} {
 		msg := ""
@@ -279,9 +283,6 @@ func deepTypeCases(c *Ctx, child *c06Child, prop, key string, thorough bool) *c0
 	for _, w := range []string{"Array", "Nullable", "LowCardinality", "Array|Nullable", "Nullable|LowCardinality|Array"} {
 		for _, d := range depths {
 			for _, auto := range []bool{false, true} {
-				if d > 100_000 && w != "Array" && w != "Array|Nullable" {
-					continue
-				}
 				id++
 				req := &c06Req{ID: id, Kind: "deeptype", Type: w, Rows: d, Msg: "Int8", Auto: auto}
 				cs := map[string]any{"kind": "deeptype", "wrappers": w, "depth": d, "leaf": "Int8", "through_block": auto}
@@ -755,4 +756,55 @@ func runC06(c *Ctx) {
 			}
 		}
 	}
+}
+
+// Array / Map columns: the rows partition the decoded elements — their lengths add up to the number of elements of the nested
+// column(s), so no element is reported twice or dropped (offsets that go back and forth make rows overlap)
+func rowLengthsAddUp(col proto.Column, rows int) (msg string) {
+	defer func() {
+		if r := recover(); r != nil {
+			msg = ""
+		}
+	}()
+	v := reflect.ValueOf(col)
+	if v.Kind() == reflect.Ptr {
+		v = v.Elem()
+	}
+	if v.Kind() != reflect.Struct {
+		return ""
+	}
+	offs := v.FieldByName("Offsets")
+	if !offs.IsValid() || offs.Kind() != reflect.Slice {
+		return ""
+	}
+	var nested int
+	switch {
+	case v.FieldByName("Data").IsValid():
+		d, ok := v.FieldByName("Data").Interface().(interface{ Rows() int })
+		if !ok {
+			return ""
+		}
+		nested = d.Rows()
+	case v.FieldByName("Keys").IsValid():
+		d, ok := v.FieldByName("Keys").Interface().(interface{ Rows() int })
+		if !ok {
+			return ""
+		}
+		nested = d.Rows()
+	default:
+		return ""
+	}
+	sum, prev := uint64(0), uint64(0)
+	for i := 0; i < offs.Len() && i < rows; i++ {
+		o := offs.Index(i).Uint()
+		if o < prev {
+			return fmt.Sprintf("Row: offset %d of row %d is below the previous offset %d (rows overlap: their lengths do not add up to the %d decoded elements)", o, i, prev, nested)
+		}
+		sum += o - prev
+		prev = o
+	}
+	if rows > 0 && offs.Len() >= rows && sum != uint64(nested) {
+		return fmt.Sprintf("Row: row lengths add up to %d, the nested column holds %d elements", sum, nested)
+	}
+	return ""
 }
